@@ -310,24 +310,99 @@ func runC18b(sc C18bSc, c *kit.Case) (v *kit.Violation) {
 
 // ---- C18c: K-nearest container ------------------------------------------------------------------
 
+type C18Fork struct {
+	// From: the fork starts from the value the main sequence had after this many pushes (mod length+1)
+	From   int
+	Pushes []AmiSpec
+}
+
 type C18cSc struct {
 	Target kit.Hex
 	K      int
 	Pushes []AmiSpec // all with IDs
+	// Forks: further push sequences that start from an earlier value of the main sequence. Push returns a
+	// new container value; the values it was derived from keep what was pushed into them.
+	Forks []C18Fork
 }
 
 func genC18c(t *rapid.T) C18cSc {
 	target := genID(t, "target")
 	sc := C18cSc{Target: target[:], K: rapid.IntRange(1, 16).Draw(t, "k")}
 	n := rapid.IntRange(0, 64).Draw(t, "n")
-	for i := 0; i < n; i++ {
-		a := genAmi(t, target, sc.Pushes, "p")
+	pushSpec := func(label string) AmiSpec {
+		a := genAmi(t, target, sc.Pushes, label)
 		if len(a.ID) != 20 {
-			a.ID = hexOf(genIDNear(t, target, "p.id"))
+			a.ID = hexOf(genIDNear(t, target, label+".id"))
 		}
-		sc.Pushes = append(sc.Pushes, a)
+		return a
+	}
+	for i := 0; i < n; i++ {
+		sc.Pushes = append(sc.Pushes, pushSpec("p"))
+	}
+	for i, nf := 0, uniformInt(t, 4, "nforks"); i < nf; i++ {
+		f := C18Fork{From: uniformInt(t, 65, "f.from")}
+		for j, m := 0, 1+uniformInt(t, 12, "f.n"); j < m; j++ {
+			f.Pushes = append(f.Pushes, pushSpec("f.p"))
+		}
+		sc.Forks = append(sc.Forks, f)
 	}
 	return sc
+}
+
+type c18pushed struct {
+	id  [20]byte
+	key string
+}
+
+// checkKNearest: the container value kn holds exactly the K nearest of `distinct`, in order.
+func checkKNearest(kn k_nearest_nodes.Type, distinct map[string]c18pushed, K int, target [20]byte, what string) *kit.Violation {
+	wantLen := len(distinct)
+	if wantLen > K {
+		wantLen = K
+	}
+	if kn.Len() != wantLen {
+		return kit.Violatef("C18:knearest-len", "%s (%d distinct pushed) with K=%d the container holds %d", what, len(distinct), K, kn.Len())
+	}
+	if kn.Full() != (kn.Len() >= K) {
+		return kit.Violatef("C18:knearest-full", "%s: Full()=%v with %d/%d", what, kn.Full(), kn.Len(), K)
+	}
+	var got [][20]byte
+	var gotKeys []string
+	kn.Range(func(e k_nearest_nodes.Elem) {
+		got = append(got, e.ID)
+		gotKeys = append(gotKeys, fmt.Sprintf("%x|%x|%d", e.ID[:], e.Addr.Addr().AsSlice(), e.Addr.Port()))
+	})
+	if len(got) != kn.Len() {
+		return kit.Violatef("C18:knearest-len", "%s: Len()=%d but Range visits %d elements", what, kn.Len(), len(got))
+	}
+	for j := 1; j < len(got); j++ {
+		if refmodel.DistCmp(got[j-1], got[j], target) > 0 {
+			return kit.Violatef("C18:knearest-order", "%s: Range is not in non-decreasing distance order at %d", what, j)
+		}
+	}
+	for _, k := range gotKeys {
+		if _, ok := distinct[k]; !ok {
+			return kit.Violatef("C18:knearest-foreign", "%s: the container holds %s, which was never pushed into it", what, k)
+		}
+	}
+	// distance multiset equals the K smallest of those pushed
+	var all [][20]byte
+	for _, d := range distinct {
+		all = append(all, d.id)
+	}
+	sort.Slice(all, func(a, b int) bool { return refmodel.DistCmp(all[a], all[b], target) < 0 })
+	for j := range got {
+		if refmodel.DistCmp(got[j], all[j], target) != 0 {
+			return kit.Violatef("C18:knearest-not-k-nearest", "%s: element %d of the container is at distance %x, the %d-th nearest pushed is at %x (K=%d, %d distinct pushed)", what, j, refmodel.Xor(got[j], target), j, refmodel.Xor(all[j], target), K, len(all))
+		}
+	}
+	if kn.Len() > 0 {
+		f := kn.Farthest()
+		if refmodel.DistCmp(f.ID, got[len(got)-1], target) != 0 {
+			return kit.Violatef("C18:knearest-farthest", "%s: Farthest() is not the maximum", what)
+		}
+	}
+	return nil
 }
 
 func runC18c(sc C18cSc, c *kit.Case) (v *kit.Violation) {
@@ -337,60 +412,57 @@ func runC18c(sc C18cSc, c *kit.Case) (v *kit.Violation) {
 	if len(sc.Pushes) > sc.K {
 		c.NonTrivial()
 	}
-	type pushed struct {
-		id  [20]byte
-		key string
-	}
-	distinct := map[string]pushed{}
-	for i, p := range sc.Pushes {
+	elem := func(p AmiSpec, data int) k_nearest_nodes.Elem {
 		addr, _ := netip.AddrFromSlice(p.IP)
-		key := krpc.NodeInfoAddrPort{ID: arr20(p.ID), Addr: krpc.NodeAddrPort{AddrPort: netip.AddrPortFrom(addr, uint16(p.Port))}}
-		kn = kn.Push(k_nearest_nodes.Elem{Key: key, Data: i})
-		distinct[p.key()] = pushed{arr20(p.ID), p.key()}
-		// invariant after every push
-		wantLen := len(distinct)
-		if wantLen > sc.K {
-			wantLen = sc.K
+		return k_nearest_nodes.Elem{Key: krpc.NodeInfoAddrPort{ID: arr20(p.ID), Addr: krpc.NodeAddrPort{AddrPort: netip.AddrPortFrom(addr, uint16(p.Port))}}, Data: data}
+	}
+	clone := func(m map[string]c18pushed) map[string]c18pushed {
+		r := make(map[string]c18pushed, len(m)+1)
+		for k, v := range m {
+			r[k] = v
 		}
-		if kn.Len() != wantLen {
-			return kit.Violatef("C18:knearest-len", "after %d pushes (%d distinct) with K=%d the container holds %d", i+1, len(distinct), sc.K, kn.Len())
+		return r
+	}
+	// every value the main sequence went through, with what had been pushed into it
+	type snap struct {
+		kn       k_nearest_nodes.Type
+		distinct map[string]c18pushed
+	}
+	distinct := map[string]c18pushed{}
+	snaps := []snap{{kn, clone(distinct)}}
+	for i, p := range sc.Pushes {
+		kn = kn.Push(elem(p, i))
+		distinct[p.key()] = c18pushed{arr20(p.ID), p.key()}
+		if v := checkKNearest(kn, distinct, sc.K, target, fmt.Sprintf("after %d pushes", i+1)); v != nil {
+			return v
 		}
-		if kn.Full() != (kn.Len() >= sc.K) {
-			return kit.Violatef("C18:knearest-full", "Full()=%v with %d/%d", kn.Full(), kn.Len(), sc.K)
-		}
-		var got [][20]byte
-		var gotKeys []string
-		kn.Range(func(e k_nearest_nodes.Elem) {
-			got = append(got, e.ID)
-			gotKeys = append(gotKeys, fmt.Sprintf("%x|%x|%d", e.ID[:], e.Addr.Addr().AsSlice(), e.Addr.Port()))
-		})
-		for j := 1; j < len(got); j++ {
-			if refmodel.DistCmp(got[j-1], got[j], target) > 0 {
-				return kit.Violatef("C18:knearest-order", "Range is not in non-decreasing distance order at %d", j)
+		snaps = append(snaps, snap{kn, clone(distinct)})
+	}
+	recheck := func(when string) *kit.Violation {
+		for i, s := range snaps {
+			if v := checkKNearest(s.kn, s.distinct, sc.K, target, fmt.Sprintf("%s, the value obtained after %d of %d pushes", when, i, len(sc.Pushes))); v != nil {
+				return v
 			}
 		}
-		for _, k := range gotKeys {
-			if _, ok := distinct[k]; !ok {
-				return kit.Violatef("C18:knearest-foreign", "container holds %s, which was never pushed", k)
+		return nil
+	}
+	if v := recheck("after the whole sequence"); v != nil {
+		return v
+	}
+	for fi, f := range sc.Forks {
+		from := f.From % len(snaps)
+		fk, fd := snaps[from].kn, clone(snaps[from].distinct)
+		for j, p := range f.Pushes {
+			fk = fk.Push(elem(p, 1000*fi+j))
+			fd[p.key()] = c18pushed{arr20(p.ID), p.key()}
+			if v := checkKNearest(fk, fd, sc.K, target, fmt.Sprintf("fork %d from the value after %d pushes, after %d pushes of its own", fi, from, j+1)); v != nil {
+				return v
 			}
 		}
-		// distance multiset equals the K smallest of those pushed
-		var all [][20]byte
-		for _, d := range distinct {
-			all = append(all, d.id)
+		if v := recheck(fmt.Sprintf("after fork %d (from the value after %d pushes) pushed %d elements", fi, from, len(f.Pushes))); v != nil {
+			return v
 		}
-		sort.Slice(all, func(a, b int) bool { return refmodel.DistCmp(all[a], all[b], target) < 0 })
-		for j := range got {
-			if refmodel.DistCmp(got[j], all[j], target) != 0 {
-				return kit.Violatef("C18:knearest-not-k-nearest", "element %d of the container is at distance %x, the %d-th nearest pushed is at %x (K=%d, %d distinct pushed)", j, refmodel.Xor(got[j], target), j, refmodel.Xor(all[j], target), sc.K, len(all))
-			}
-		}
-		if kn.Len() > 0 {
-			f := kn.Farthest()
-			if refmodel.DistCmp(f.ID, got[len(got)-1], target) != 0 {
-				return kit.Violatef("C18:knearest-farthest", "Farthest() is not the maximum")
-			}
-		}
+		c.Label("forked")
 	}
 	return nil
 }
@@ -403,7 +475,7 @@ func init() {
 		"rapid: 3..12 lookup candidates (with/without ID, duplicate IDs at other addresses, same IP other port, exact duplicates): CloserThan irreflexive, asymmetric, transitive (all triples), total on distinct elements, known before unknown, consistent with XOR distance; the sorted frontier container under add/delete sequences agrees with a set model and drains in CloserThan order. Non-trivial: a distance tie or an ID-less element.",
 		nil, genC18b, runC18b)
 	kit.Register("C18c",
-		"rapid: push sequences of 0..64 elements (duplicates, distance ties) into the K-nearest container, K 1..16: after every push it holds min(K, distinct) elements, all pushed, whose distances are the K smallest, in non-decreasing order, Farthest is the maximum. Non-trivial: more pushes than K.",
+		"rapid: push sequences of 0..64 elements (duplicates, distance ties) into the K-nearest container, K 1..16: after every push it holds min(K, distinct) elements, all pushed, whose distances are the K smallest, in non-decreasing order, Farthest is the maximum. Push returns a new container value: every value of the sequence is kept and re-checked at the end against what had been pushed into it, and 0..3 forks push 1..12 further elements starting from an earlier value (each fork checked after every push, all earlier values re-checked after every fork). Non-trivial: more pushes than K.",
 		[]string{"elements at equal distance are interchangeable (the container breaks ties by a randomly seeded hash)"},
 		genC18c, runC18c)
 }
